@@ -46,6 +46,13 @@ def run_accept(served, supported, ctxs):
     service.sop_classes = list(served)
     if served:
         aem.AE.add_scp(ae, service)
+    # every other entity also *uses* (SCU role) the classes it does not serve: that must not make it serve them
+    used = sorted(set(a for _, a, _ in ctxs if a not in served))
+    if used and (len(ctxs) + len(served)) % 2 == 0:
+        def user_service(asce, ctx, *a):
+            calls.append(('scu', str(ctx.sop_class)))
+        user_service.sop_classes = used
+        ae.add_scu(user_service)
     acc = msgs.real_acceptor(ae)          # the real __init__: a new acceptor per association, as the server does
     rq = pdu.AAssociateRqPDU.decode(build_rq(ctxs, *echo_fields(ctxs)).encode())
     acc.accept(rq)
